@@ -19,7 +19,7 @@ Reading: "matches no artifact" = no constraint set of the section is satisfied b
 a malformed pattern matches nothing (so `name_regexp = (` alone is an unmatched section).
 """
 import os, threading
-import vf, campaign
+import vf, campaign, difftree
 from checks import _suppr as S
 
 MALFORMED = ["(", "a[", "*a", "a{"]
@@ -118,16 +118,22 @@ def main():
                 base[key] = S.abidiff(tool, a, b, opts, env=env)
             r0 = base[key]
             r1 = S.abidiff(tool, a, b, opts, suppr=f, env=env)
+            if not opts and k % 2 == 0:          # hook H3: the forest after the suppression pass (DiffTreeTrace: no mark without a cause)
+                te = difftree.tree_event(tool, a, b, [], env, idx, suppr=f, base=r1, extra={"comp": comp, "k": k, "supprFile": f})
+                if te is not None:
+                    evs.append(("tree",) + te)
             evs.append(("ok", {"e": "Unmatched", "case": idx, "comp": comp, "k": k, "strata": names, "opts": key, "sections": secs, "ifaces": ifaces, "types": types, "members": members,
                                "env": {"paths": [a, b], "bases": [os.path.basename(a), os.path.basename(b)], "sonames": ["", ""]}, "exit0": r0.exit, "exit1": r1.exit, "same": r0.out == r1.out,
                                "changes": r0.exit != 0, "ret": campaign.retof(r0, r1), "out0": r0.out[:200], "out1": r1.out[:200]}))
         return evs
 
     res = [x for xs in vf.pmap(one, [(i, cs, comp) for i, cs in enumerate(cases) for comp in comps]) for x in xs]
-    events = []
-    for kind, x in res:
-        if kind == "discard":
-            c.discard(x)
+    events, trees = [], []
+    for kind, x, *more in res:
+        if kind == "discard" or (kind == "tree" and x == "discard"):
+            c.discard(more[0] if more else x)
+        elif kind == "tree":
+            trees.append(more[0])
         else:
             events.append(x)
     S.tick(c, "replayed")
@@ -137,6 +143,10 @@ def main():
         raise err[0]
     case_of = lambda ev: dict(campaign.case_files(os.path.join(c.workdir, "p%d" % ev["case"], ev["comp"])), **{"sections.suppr": S.supprfile.render(ev["sections"])})
     S.validate(c, events, case_of)
+    tree_case = lambda ev: dict(campaign.case_files(os.path.join(c.workdir, "p%d" % ev["case"], ev["comp"])), **{"sections.suppr": open(ev["supprFile"]).read()})
+    vf.pmap(lambda i: c.validate("DiffTreeTrace.tla", "DiffTreeTrace.cfg", trees[i:i + 400], case_of=tree_case), range(0, len(trees), 400), jobs=6)
+    c.cov["diff_forests_validated"] = len(trees)
+    c.cov["diff_forests_with_suppressed_nodes"] = sum(1 for t in trees if any(n["sup"] for n in t["nodes"]))
     S.tick(c, "validated")
     live = [e for e in events if not e.get("_skipped")]
     c.cov["evaluations"] = len(live)
